@@ -23,7 +23,7 @@ Reg == [c \in Clients |->
                     rtypes |-> {}, uris |-> {}, postLogout |-> {}, at |-> "opaque"]
     \* a native application that nevertheless is registered with a secret (application type and auth method are independent)
     [] c = "cn" -> [auth |-> "basic", app |-> "native", grants |-> {"code","refresh","device"},
-                    rtypes |-> {"code"}, uris |-> {"ucn"}, postLogout |-> {}, at |-> "opaque"]]
+                    rtypes |-> {"code"}, uris |-> {"ucn"}, postLogout |-> {"plcn"}, at |-> "opaque"]]
 
 \* the names are the subjects themselves; one of them needs escaping wherever a subject is embedded in a URL-ish or delimiter-separated string
 Users  == {"u1", "u2@idp.example"}
@@ -44,6 +44,7 @@ LoginGlob(c) == IF c = "cw" THEN {"ucwG"} ELSE {}
 PLGlob(c)    == IF c = "cw" THEN {"plcwG"} ELSE {}
 \* "plcxNear": a URI nobody registered that differs from plcx (a registered URI WITH a query component) in one character: the "?"
 \* - what a registered URI read as a pattern would also match
+\* "plcn": cn's (native) post-logout URI on the loopback interface ; "plcnEvil": a foreign host with the same path
 PostLogoutOK(c, u) == u \in Reg[c].postLogout \cup PLGlob(c)
 
 \* Credential presentations. kind: none | basic | post | assertion ; secret: right | wrong ;
